@@ -564,12 +564,18 @@ def bounded(ctx):
             rt(3, x, repr(x))
         else:
             # the four (class, nullable) variants share the converter (checked above); one variant each for the bulk
-            r = opt_i.parse(str(n))
+            try:
+                r = opt_i.parse(str(n))
+            except Exception as e:  # an observation, not a harness failure
+                r = e
             ctx.case(["Option", 2, False, str(n)], nontrivial=True)
             if type(r) is not int or r != n:
                 rep.report([("roundtrip|INTEGER|different-value", "parse(%r) -> %r" % (str(n), r))],
                            {"kind": "roundtrip", "cls": "Option", "type": 2, "nullable": False, "value": repr(n)})
-            r = arg_f.parse(repr(x))
+            try:
+                r = arg_f.parse(repr(x))
+            except Exception as e:
+                r = e
             ctx.case(["Argument", 3, True, repr(x)], nontrivial=True)
             if not (type(r) is float and ((math.isnan(r) and math.isnan(x)) or (r == x and math.copysign(1.0, r) == math.copysign(1.0, x)))):
                 rep.report([("roundtrip|FLOAT|different-value", "parse(%r) -> %r" % (repr(x), r))],
